@@ -41,6 +41,16 @@ def err_class(msg):
     return m[:60]
 
 
+_IDENTS = {"A", "B", "C", "D", "K", "V", "T1", "T2", "T3", "X", "Y", "J", "TT", "SQ", "SJ", "CTE", "CTE2", "N", "P"}
+
+
+def introduced_words(original, fixed):
+    """Keywords / function names the rewrite introduced (construct class for the signature): 'COALESCE+NOT'."""
+    words = lambda s: {w.upper() for w in re.findall(r"[A-Za-z_]+", re.sub(r"'(?:[^']|'')*'|--[^\n]*|/\*.*?\*/", " ", s, flags=re.S))}
+    new = {w for w in words(fixed) - words(original) if w not in _IDENTS and not re.fullmatch(r"C\d?|PREP_\w+", w)}
+    return "+".join(sorted(new))[:60]
+
+
 def diff_shape(a, b):
     """a, b: sorted lists of row reprs."""
     if len(a) != len(b):
@@ -135,6 +145,9 @@ class C16(Check):
         assert err_class('near "foo": syntax error') == 'near "ID": syntax error'
         assert diff_shape(["(1, 2)"], ["(1, 2, 3)"]) == "column-count-differs" and diff_shape(["(1,)"], []) == "row-count-differs"
         assert diff_shape(["(1,)"], ["(0,)"]) == "values-differ"
+        assert introduced_words("select case when a then false else true end - 1", "select not coalesce(a, false) - 1") == "COALESCE+NOT"
+        assert introduced_words("select tt.a from t1 tt order by 1", "select tt.a from t1 tt order by tt.tt.1") == ""
+        assert introduced_words("select 'x y' -- on\nfrom t1 join t2 using (a)", "select 'x y' from t1 join t2 on t1.a = t2.a") == "ON"
 
     def pinned(self, tier):
         pops = [
@@ -238,15 +251,16 @@ class C16(Check):
             return out
         clause, detail, err = bad
         # bisect: which single rule's fix is enough?
-        culprit = "combination"
+        culprit, culprit_text = "combination", fixed
         for code in codes:
             lf1, f1 = self._fix(sql, rules=code, exclude=None)
             if isinstance(lf1, Crash) or f1 is None or f1 == sql:
                 continue
             if self._compare(pops, base, f1) is not None:
-                culprit = code
+                culprit, culprit_text = code, f1
                 break
-        out.fail(f"{detail}; original={sql!r} fixed={fixed!r}", clause=clause, rule=culprit, err=err)
+        out.fail(f"{detail}; original={sql!r} fixed={fixed!r}", clause=clause, rule=culprit, err=err,
+                 introduced=introduced_words(sql, culprit_text))
         return out
 
     def budget_s(self, tier):
